@@ -449,6 +449,11 @@ def expand_outcomes(outs: List['Outcome'], limit: int = 64) -> List['Outcome']:
             known = {t: pol for t, pol in norm_guards(o.guards)}
             if any(known.get(t, pol) != pol for t, pol in norm_guards(gs)):
                 continue
+            exc = next((x for x in walk(leaf) if isinstance(x, Raises)), None)
+            if exc is not None:
+                # the chosen alternative raises while the value is being computed (a failed table lookup, ...)
+                res.append(Outcome('raise', exc.exc, o.guards + tuple(gs), o.effects, o.asserts, o.lineno, o.env, o.trace))
+                continue
             res.append(Outcome(o.kind, leaf, o.guards + tuple(gs), o.effects, o.asserts, o.lineno, o.env, o.trace))
     return res
 
@@ -1258,6 +1263,18 @@ class Evaluator:
             fd = ast.FunctionDef(name='<lambda>', args=e.args, body=[ast.Return(value=e.body, lineno=e.lineno, col_offset=0)], decorator_list=[],
                                  returns=None, lineno=e.lineno, col_offset=0, end_lineno=getattr(e, 'end_lineno', e.lineno))
             return Lam(names, self.expr(e.body, sub, mod, fi, depth), (fd, dict(st.env), mod, fi))
+        if isinstance(e, (ast.GeneratorExp, ast.ListComp, ast.SetComp)) and len(e.generators) == 1 and not e.generators[0].ifs \
+                and isinstance(e.generators[0].target, (ast.Name, ast.Tuple)):
+            lit = self.expr(e.generators[0].iter, st, mod, fi, depth)
+            if isinstance(lit, GlobalVal):
+                lit = lit.value
+            if isinstance(lit, TupleT) and lit.kind in ('tuple', 'list') and 0 < len(lit.items) <= 8 and not any(isinstance(x, Op) and x.op == '*' for x in lit.items):
+                vals = []
+                for item in lit.items:
+                    sub = st.fork()
+                    self.assign(e.generators[0].target, item, sub, mod, fi, depth)
+                    vals.append(self.expr(e.elt, sub, mod, fi, depth))
+                return TupleT(tuple(vals), 'set' if isinstance(e, ast.SetComp) else 'tuple')
         if isinstance(e, (ast.GeneratorExp, ast.ListComp, ast.SetComp)):
             sub = st.fork()
             gens = []
@@ -1520,6 +1537,13 @@ class Evaluator:
             v = base.get(name)
             if v is not None and not isinstance(v, Default):
                 return v
+            if isinstance(v, Default):
+                # a plain (immutable, constant) default of a field that the constructor call left out
+                ci = self.m.classes.get(base.cls)
+                f = ci.field(name) if ci is not None else None
+                if f is not None and f.default is not None and f.factory is None and isinstance(f.default, (ast.Constant, ast.Tuple)) \
+                        and not f.kwargs.get('converter') and ci.resolve('__attrs_post_init__') is None:
+                    return self.expr(f.default, _State(), ci.module, None, depth)
         bt = self.type_of(base)
         if bt is not None:
             if bt.field(name) is not None:
@@ -1710,8 +1734,28 @@ class Evaluator:
                 pass
         if n == 'tuple' and len(args) == 1 and isinstance(args[0], TupleT):
             return TupleT(args[0].items, 'tuple')
+        if n == 'tuple' and len(args) == 1 and isinstance(args[0], Op) and args[0].op == '+' and any(isinstance(x, Call) or isinstance(x, TupleT) for x in args[0].args):
+            return args[0]
         if n == 'tuple' and not args:
             return TupleT(())
+        if n in ('itertools.chain', 'chain') and args and not kwargs and all(not (isinstance(a, Op) and a.op == '*') for a in args):
+            res = args[0]
+            for a in args[1:]:
+                res = self.binop('+', res, a)
+            return res if len(args) > 1 else Call(func, args, kwargs)
+        if n in ('itertools.chain.from_iterable', 'chain.from_iterable') and len(args) == 1 and isinstance(args[0], TupleT) and args[0].items:
+            res = args[0].items[0]
+            for a in args[0].items[1:]:
+                res = self.binop('+', res, a)
+            return res
+        if n in ('functools.reduce', 'reduce') and len(args) in (2, 3) and isinstance(args[0], Ext) and isinstance(args[1], TupleT) and args[1].items \
+                and args[0].name.split('.')[-1] in ('or_', 'and_', 'add', 'mul', '__or__', '__and__', '__add__'):
+            opn = {'or_': '|', '__or__': '|', 'and_': '&', '__and__': '&', 'add': '+', '__add__': '+', 'mul': '*'}[args[0].name.split('.')[-1]]
+            items = list(args[1].items)
+            res = args[2] if len(args) == 3 else items.pop(0)
+            for a in items:
+                res = self.binop(opn, res, a)
+            return res
         if n == 'getattr' and len(args) == 2 and isinstance(args[1], Const) and isinstance(args[1].value, str) and self._cur_state is not None:
             return self.attr(args[0], args[1].value, self._cur_state, self._cur_depth)
         if n == 'map' and len(args) == 2 and not kwargs and self._cur_state is not None:
